@@ -54,11 +54,12 @@ class ScalarID:
         :rtype: Union[str, UNDEFINED_VALUE]
         """
         # pylint: disable=no-self-use
-        return (
-            ast.value
-            if isinstance(ast, (StringValueNode, IntValueNode))
-            else UNDEFINED_VALUE
-        )
+        if isinstance(ast, StringValueNode):
+            return ast.value
+        if isinstance(ast, IntValueNode):
+            # SDL default values carry a Python int, query literals a lexeme
+            return str(ast.value)
+        return UNDEFINED_VALUE
 
 
 def bake(schema_name: str, config: Optional[Dict[str, Any]] = None) -> str:
